@@ -114,7 +114,7 @@ def run_dev(ctx, method, shape, with_loop=False):
     C0 = cat(st.heap, dev)
     if with_loop: x.loop_handlers[("Device._readline_socket", 1)] = make_while_handler(dev, C0)
     h0 = st.snap()
-    exits = ctx.run(x, f"Device.{method}", [dev], {}, st)
+    exits = ctx.run(x, f"Device.{method}", [dev], {}, st, split_returns=True)
     for name, pc, f in x.ghost["obls"]: ctx.check(name, IMP(pc, f), None, None, "inv")
     covers(ctx, exits)
     return dev, h0, C0, exits, x
@@ -151,6 +151,7 @@ for _shape in ("empty", "chunks"):
         @unit(f"Device._readline_socket[{shape}]", ["C17"])
         def u(ctx):
             dev, h0, C0, exits, x = run_dev(ctx, "_readline_socket", shape, with_loop=True)
+            eofs = []
             for e in exits:
                 o1 = e.heap[dev.oid]
                 R = o1["$received"].z(); C1 = cat(e.heap, dev)
@@ -159,6 +160,7 @@ for _shape in ("empty", "chunks"):
                     continue
                 pv = as_opt(e.payload)
                 is_eof = pv.none                       # READ_EOF is None
+                eofs.append(AND(e.cond, is_eof))
                 ctx.check(f"READ_EOF only after the peer closed with nothing pending; device marked disconnected @{e.where}",
                           IMP(is_eof, AND(o1["$eof"].t, z3.Concat(C0, R) == z3.StringVal(""), C1 == z3.StringVal(""), NOT(o1["_is_connected"].t))), e, None, "post")
                 if pv.inner is None: continue
@@ -170,7 +172,7 @@ for _shape in ("empty", "chunks"):
                           IMP(AND(NOT(is_eof), z3.Length(r) == 0), AND(nlfree(z3.Concat(C0, R)), NOT(o1["$eof"].t))), e, None, "post")
                 ctx.check(f"buffer invariant preserved @{e.where}", inv_obj(e.heap, dev), e, None, "inv")
                 ctx.check(f"still connected unless READ_EOF @{e.where}", IMP(NOT(is_eof), o1["_is_connected"].t), e, None, "post")
-                if shape == "empty": ctx.canary(f"canary:never-eof @{e.where}", NOT(is_eof), e)
+            if shape == "empty": ctx.canary("canary: READ_EOF is never returned", NOT(OR(*eofs)))
             ctx.trust("socket file contract: read(n) returns None | b'' | 1..n bytes (assumed)", "A-str: bytes are sequences of code units (z3 Strings)")
         return u
     _mk2(_shape)
